@@ -480,6 +480,8 @@ def gen_scenario(rng, ops=None, force=None):
         "time_chunks": None,
         "secondary": secondary,
         "secondary_backing": {k: rng.choice(["numpy", "dask"]) for k in secondary},
+        # labelled secondary rasters are matched by dimension NAME: their own dim order is free
+        "secondary_order": {k: rng.choice([None, "yx", "xy"]) for k in secondary} if op != "zonal_mean" else {},
         "pattern": pattern,
     }
     return scn
@@ -530,6 +532,11 @@ def build_secondary(scn, name, perm=None):
         a = a.reshape(Y * X)[perm].reshape(Y, X)
     _, y, x = cube_coords(scn)
     yx = [d for d in scn["layout"] if d != "time"]
+    order = (scn.get("secondary_order") or {}).get(name)
+    if order == "yx":
+        yx = ["y", "x"]
+    elif order == "xy":
+        yx = ["x", "y"]
     da = xr.DataArray(a, dims=("y", "x"), coords={"y": y, "x": x}).transpose(*yx).copy()
     return da
 
